@@ -4,8 +4,8 @@ import itertools
 
 CLAIMED = True
 LEVEL = 'proof'
-LEVEL_TEXT = ('Proof for all 7 clauses (clause 6, the 1px triangle outline = its three edge lines, for Center alignment: C19_join_tri_outline_w1 of the join part; '
-              'Inside/Outside alignment searched). Models: Triangle::points()/bounding_box() (scanline iterator, Scanline::extend, bresenham_intersection, sorted_yx, sorted_clockwise, '
+LEVEL_TEXT = ('Proof for all 7 clauses (clause 6, the 1px triangle outline = its three edge lines, for every proper triangle and every alignment: C19_join_tri_outline_w1_proper of the join part (is_collapsed with width 1 <-> no area); triangles without area: the same for Center/Outside, '
+              'collapsed Inside strokes = the rows of Triangle::scanline_intersection: C19_join_collapsed_inside_pixels). Models: Triangle::points()/bounding_box() (scanline iterator, Scanline::extend, bresenham_intersection, sorted_yx, sorted_clockwise, '
               'area_doubled as written), the Polyline Points iterator (the nth(1) recursion step by step), and Styled<Triangle> pixels()/draw() for stroke width 0 '
               '(step-by-step pixel iterator over the un-fused scanline iterator). Proved for ALL triangles with coordinates within +-8192, for Triangle::points() '
               'AND for the styled fill (pixels() = the fill_solid writes of draw() = points() in the fill colour): the points do not depend on the vertex order (same list); '
@@ -17,7 +17,7 @@ LEVEL_TEXT = ('Proof for all 7 clauses (clause 6, the 1px triangle outline = its
               '(clause 1 at full strength for widths 0, 1 and Outside alignment; for wider Inside/Center strokes for the lattice points farther than width + 1 from every edge).')
 LEVEL_NOTE = ('Trusted: Coq kernel, extraction, the OCaml/Rust drivers; the hand-written model is validated by differential testing, not proved equal to '
               'the Rust code. Thin-line lemmas: Proofs/Line.v of builder "line". Arithmetic is unbounded Z; theorems carry tri_ok (+-8192), the range in which '
-              'area_doubled/contains stay inside i32 (C19_tri_range_no_overflow). tri_outline_w1 is proved in Properties/C19_join.v (Center alignment).')
+              'area_doubled/contains stay inside i32 (C19_tri_range_no_overflow). tri_outline_w1 is proved in Properties/C19_join.v (Center, Outside, non-collapsed Inside).')
 RULE = ('correspondence: Triangle::points() / bounding_box() for ALL 117 649 ordered vertex triples of a 7x7 grid (colinear and coincident vertices '
         'included) + random triples up to +-40 (flat/thin/axis-parallel shares), 40 up to +-300, 100 long slivers (edges up to 4000 px, inside +-8192) and small '
         'triangles at the range edge +-8192; Styled<Triangle> width 0 pixels() and fill_solid calls (tri_styled_w0) on all triples (up to order) of a 5x5 grid x 12 '
@@ -40,8 +40,8 @@ ASSUMPTIONS = ['triangle vertex coordinates within +-8192 (tri_ok): the range in
 TRUSTED = ['modelled, not verified: Iterator::nth(1) = next() twice with early None; Range<i32>::is_empty / RangeInclusive::contains; '
            'Rectangle::rows() (C16 model); DrawTarget::fill_solid(area, c) writes c at every point of area (C01a/C03 are about that)']
 PARTIAL = ['tri_outline_w1 (clause 6: the 1px outline is the union of its three edge lines, rasterised between the clockwise-ordered vertices; colinear vertices with '
-           'Inside alignment: between the (y,x)-sorted vertices): proved for Center alignment in the join part (C19_join_tri_outline_w1: pixels() = union of the three clockwise Bresenham lines); '
-           'Inside/Outside alignment: no theorem, compared by p_tri_outline for all three alignments',
+           'Inside alignment: between the (y,x)-sorted vertices): proved in the join part for Center and Outside alignment and for Inside alignment when Triangle::is_collapsed is false (C19_join_tri_outline_w1_any: pixels() = union of the three clockwise Bresenham lines); '
+           'collapsed Inside strokes (with width 1: degenerate triangles only) paint the rows of Triangle::scanline_intersection instead (C19_join_collapsed_inside_pixels); all three alignments are also compared by p_tri_outline',
            'clause 1 for triangles with fill AND a stroke of width >= 1: no theorem (thick-stroke pipeline); searched by p_tri_cover (full clause for widths 0, 1 and Outside alignment; '
            'wider Inside/Center strokes: lattice points farther than width + 1 from every edge; see notes/findings/FINDINGS-C19.md "observations outside the property")']
 
